@@ -203,7 +203,16 @@ def own_connection(prog, rep):
         else:
             rep.undecided("CONN", m.short, "self.conn =", f"unrecognised connection source `{norm(v)[:70]}`", m.loc(n))
     if not asg:
-        rep.undecided("CONN", "SqliteStorage", "self.conn =", "no assignment of self.conn found", None)
+        cm_ = cls.methods.get("conn")
+        if cm_ is not None:
+            rep.violation("CONN", cm_.short, "conn is computed", f"`conn` is a property / method of SqliteStorage ({cm_.short}), not an attribute bound once in the constructor: the connection a call sees depends on who calls (a connection per thread, per call ...) while last_commit and the statement counter are per object: a commit on one connection stamps the shared bookkeeping although rows buffered on another connection stay uncommitted, so neither the count nor the age bound holds for them", cm_.loc())
+        else:
+            rep.undecided("CONN", "SqliteStorage", "self.conn =", "no assignment of self.conn found", None)
+    # commit() runs when it is called: nothing is wrapped around it that can drop or defer the call
+    for mn_ in ("commit", "conditional_commit"):
+        m_ = cls.methods.get(mn_)
+        if m_ is not None and m_.decorators:
+            rep.violation("CONN", m_.short, f"decorated with {m_.decorators}", f"{m_.short} is wrapped by `{m_.decorators[0]}`: a wrapper decides whether / when the flush really runs (rate limits, deferral, swallowing): a commit the discipline counts on (the one before a read, the one the age test asks for) may silently not happen", m_.loc())
     for s_ in sql_sites(prog):
         if s_.stmt.kind == "pragma" and str(s_.stmt.table).lower() == "journal_mode":
             arg = (getattr(s_.stmt, "pragma_arg", None) or "").upper()
